@@ -14,7 +14,11 @@ import locks as L
 APIS = ["publish0", "publish1", "subscribe", "unsubscribe", "disconnect", "reconnect", "message_callback_add", "message_callback_remove"]
 SCEN = ["on_connect", "on_disconnect_eof", "on_disconnect_user", "on_message0", "on_message1", "on_message2", "on_publish_ack",
         "on_publish_q0", "on_subscribe", "on_unsubscribe", "on_pre_connect", "on_socket_open", "on_socket_close",
-        "on_socket_register_write", "on_socket_unregister_write", "on_log"]
+        "on_socket_register_write", "on_socket_unregister_write", "on_log",
+        # callbacks reached from INSIDE a packet handler, through the write of the acknowledgement it sends: the transport
+        # fails that write (on_disconnect), or the write first flushes a queued QoS 0 PUBLISH (on_publish)
+        "on_disconnect_ackfail1", "on_disconnect_ackfail2", "on_disconnect_ackfail3", "on_publish_flush1", "on_publish_flush2",
+        "on_publish_flush3"]
 _TABLE = {}
 
 
@@ -22,6 +26,12 @@ def table():
     if not _TABLE:
         _TABLE.update(L.analyse())
     return _TABLE
+
+
+def cb_of(scen):
+    for suf in ("_eof", "_user", "_ackfail", "_flush", "_ack", "_q0"):
+        scen = scen.split(suf)[0]
+    return scen.rstrip("0123")
 
 
 def api_name(a):
@@ -50,7 +60,7 @@ def run_scenario(scen, api, ext, proto):
     name_locks(c)
     res = {"held": None, "outcome": "not-reached", "sock": None}
     fired = {"n": 0}
-    cbname = scen.split("_eof")[0].split("_user")[0].split("_ack")[0].split("_q0")[0].rstrip("012")
+    cbname = cb_of(scen)
     installed = set()
 
     def nested(cl):
@@ -126,6 +136,21 @@ def run_scenario(scen, api, ext, proto):
             if q == 2:
                 raw(c._sock).feed(wire.enc_ack(proto, wire.PUBREL, 7)) if c._sock else None
                 c.loop_read()
+        elif scen.startswith(("on_disconnect_ackfail", "on_publish_flush")):
+            k = int(scen[-1])       # 1: QoS 1 PUBLISH -> PUBACK; 2: QoS 2 PUBLISH -> PUBREC; 3: PUBREL -> PUBCOMP
+            if k == 3:
+                s.feed(wire.enc_publish(proto, b"t", b"p", qos=2, mid=7))
+                c.loop_read()
+                pump_write()
+            if scen.startswith("on_publish_flush"):
+                s.outscript.append(("block",))
+                c.publish("t", b"x", 0)          # stays queued behind a transport that would block
+                s.outscript.clear()
+            else:
+                s.outscript.append(("error",))   # the next write fails
+            s.feed(wire.enc_ack(proto, wire.PUBREL, 7) if k == 3 else wire.enc_publish(proto, b"t", b"p", qos=k, mid=7))
+            c.loop_read()
+            pump_write()
         elif scen == "on_publish_ack":
             c.publish("t", b"x", 1)
             pump_write()
@@ -230,7 +255,7 @@ class LockStream:
             if d["held"] == "?":
                 continue
             scen, api = w[1], w[2]
-            cbname = scen.split("_eof")[0].split("_user")[0].split("_ack")[0].split("_q0")[0].rstrip("012")
+            cbname = cb_of(scen)
             held = sorted(x for x in d["held"].split(",") if x)
             sets = [sorted(h) for site, hs in t["sites"].items() if site.split("@")[0] == cbname for h in hs]
             if held not in sets:
